@@ -140,6 +140,33 @@ def p_C04(tier, seed):
                              max_states=1, wd_name="C04c"))
     nh, nk, no = scope(tier, (8, [16, 40], 300), (32, [16, 40, 100], 1500))
     f.merge(engines.engine_B("C04", ["pq", "dpq"], seed, nh, nk, no))
+    # the index-table lemma from EVERY pair of mutually inverse tables (all n! arrangements), and the inductive
+    # step of the whole alphabet from every well-formed ordered store
+    wd = vlib.workdir("C04_tables")
+    nt = scope(tier, 6, 8)
+    mc = vlib.run_mc("MCTables", {"N": str(nt)}, ["WFInv", "NoBadOut"], wd, view=None, workers=8, timeout=3000)
+    if mc["violated"]:
+        raise ToolError("MCTables: %s violated (see %s)" % (mc["violated"], mc["out"]))
+    log("[tables] Store::swap / swap_remove / remove keep heap and qp mutually inverse from all table pairs of <= %d "
+        "entries: %d states, %d transitions" % (nt, mc["distinct"], mc["generated"]))
+    f.stats["states"] += mc["distinct"]
+    f.stats["transitions"] += mc["generated"]
+    f.stats["engines"].append({"engine": "MCTables", "n": nt, "distinct_states": mc["distinct"], "transitions": mc["generated"]})
+    ni, npr = scope(tier, (4, 2), (5, 2))
+    for kind in ("pq", "dpq"):
+        wd = vlib.workdir("C04_ind_" + kind)
+        consts = {"Items": vlib.tla_set(engines.keyset(ni)), "MaxP": str(npr), "Kind": vlib.tla_str(kind), "Emit": "FALSE",
+                  "Alphabet": vlib.tla_str("full")}
+        mc = vlib.run_mc("MCInductive", consts, ["WFInv", "OrdInv", "Refines", "PeekInv"], wd, init="IndInit", nxt="IndNext",
+                         timeout=3000)
+        if mc["violated"]:
+            raise ToolError("MCInductive: %s violated (see %s)" % (mc["violated"], mc["out"]))
+        log("[inductive/%s] one step of every operation from EVERY well-formed ordered store of <= %d items x %d priorities "
+            "keeps WF, order and refinement: %d states" % (kind, ni, npr + 1, mc["distinct"]))
+        f.stats["states"] += mc["distinct"]
+        f.stats["transitions"] += mc["generated"]
+        f.stats["engines"].append({"engine": "MCInductive", "kind": kind, "items": ni, "priorities": npr + 1,
+                                   "distinct_states": mc["distinct"]})
     return f
 
 
